@@ -308,7 +308,7 @@ def excluded_properties(h, gb, wd):
     args = []
     for k in keep:
         args += ["--property", k]
-    return args, excl, len(keep)
+    return args, excl, sum(1 for k in keep if not re.search(r"\.(unwind|recursion)(\.\d+)?$", k))
 
 
 def solve(h, gb, wd):
